@@ -355,6 +355,23 @@ func Catalogue(m *Meta, s *Seed) []Mut {
 			}
 		})
 	}
+	// --- histories that are well formed in every respect (ref named after the first operation,
+	// known author, clocks fine) but do not start with exactly one create operation
+	switch s.Name {
+	case "S1":
+		for t := 2; t <= 8; t++ {
+			add(Mut{Class: fmt.Sprintf("craft/first-op-type=%d-as-only-operation", t), Commit: -1, Op: "craft", Arg: fmt.Sprintf("only:%d", t)})
+			add(Mut{Class: fmt.Sprintf("craft/first-op-type=%d-first-of-root-pack", t), Commit: -1, Op: "craft", Arg: fmt.Sprintf("first:%d", t)})
+		}
+		add(Mut{Class: "craft/create-is-second-operation-of-root-pack", Commit: -1, Op: "craft", Arg: "create-second-in-root"})
+		add(Mut{Class: "craft/create-arrives-in-second-commit", Commit: -1, Op: "craft", Arg: "create-in-second-commit"})
+		add(Mut{Class: "craft/second-create-in-root-pack", Commit: -1, Op: "craft", Arg: "second-create-in-root"})
+		add(Mut{Class: "craft/second-create-in-later-commit", Commit: -1, Op: "craft", Arg: "second-create-later"})
+	case "S2":
+		add(Mut{Class: "craft/second-create-in-concurrent-branch", Commit: -1, Op: "craft", Arg: "second-create-branch"})
+		add(Mut{Class: "craft/two-creates-concurrent-equal-clocks", Commit: -1, Op: "craft", Arg: "creates-tie:a"})
+		add(Mut{Class: "craft/two-creates-concurrent-equal-clocks", Commit: -1, Op: "craft", Arg: "creates-tie:b"})
+	}
 	if s.Kind == "bug" {
 		add(Mut{Class: "history/every-pack-empty", Commit: -1, Op: "all-packs-empty"})
 		add(Mut{Class: "history/root-only-empty-pack", Commit: -1, Op: "root-only-empty"})
@@ -529,6 +546,10 @@ func Build(g *raw, m *Meta, mu Mut) (*built, error) {
 				break
 			}
 		}
+	case "craft":
+		if err := craft(sp, m, s, mu.Arg); err != nil {
+			return nil, err
+		}
 	case "ref":
 		sp.refName = mu.Arg
 		return &built{refName: mu.Arg, head: s.Head()}, nil
@@ -545,4 +566,145 @@ func Build(g *raw, m *Meta, mu Mut) (*built, error) {
 		return nil, nil
 	}
 	return &built{refName: sp.refName, head: head}, nil
+}
+
+// rawOps returns the raw JSON of every operation of the bug seeds, by operation type (in seed and
+// commit order).
+func rawOps(m *Meta) map[int][]string {
+	out := map[int][]string{}
+	for _, s := range m.Seeds {
+		if s.Kind != "bug" {
+			continue
+		}
+		for _, c := range s.Commits {
+			doc, err := parseJSON(c.Blob)
+			if err != nil {
+				continue
+			}
+			ops := doc.get("ops")
+			if ops == nil || ops.Kind != kArray {
+				continue
+			}
+			for _, op := range ops.Vals {
+				raw := op.bytes()
+				out[opType(raw)] = append(out[opType(raw)], string(raw))
+			}
+		}
+	}
+	return out
+}
+
+// setOps replaces the operations of commit k of the spec (the pack author stays).
+func (sp *spec) setOps(k int, ops ...string) error {
+	doc, err := parseJSON(sp.commits[k].blob)
+	if err != nil {
+		return err
+	}
+	for i, key := range doc.Keys {
+		if key == "ops" {
+			doc.Vals[i] = rawNode("[" + strings.Join(ops, ",") + "]")
+		}
+	}
+	sp.setBlob(k, doc.bytes())
+	return nil
+}
+
+func (sp *spec) appendOps(k int, ops ...string) error {
+	doc, err := parseJSON(sp.commits[k].blob)
+	if err != nil {
+		return err
+	}
+	var cur []string
+	if o := doc.get("ops"); o != nil && o.Kind == kArray {
+		for _, v := range o.Vals {
+			cur = append(cur, string(v.bytes()))
+		}
+	}
+	return sp.setOps(k, append(cur, ops...)...)
+}
+
+// craft builds a history on the commit skeleton of the seed (its trees, clocks and pack authors)
+// whose operations do not start with exactly one create operation; the ref is named after the
+// first operation in the documented order, so everything else about the history is in order.
+func craft(sp *spec, m *Meta, s *Seed, variant string) error {
+	ops := rawOps(m)
+	own := ops[1][0]     // the create operation of S1
+	foreign := ops[1][2] // the create operation of S3: another bug's, never seen under this id
+	if s.Name == "S2" {
+		own = ops[1][1]
+	}
+	other := func(t int) string { // an operation that is neither a create nor of type t
+		if t == 3 {
+			return ops[5][0]
+		}
+		return ops[3][0]
+	}
+	name := func(first string) { sp.refName = sha([]byte(first)) }
+	kind, arg, _ := strings.Cut(variant, ":")
+	switch kind {
+	case "only", "first":
+		t := 0
+		fmt.Sscanf(arg, "%d", &t)
+		if len(ops[t]) == 0 {
+			return fmt.Errorf("no operation of type %d in the seeds", t)
+		}
+		sp.head = 0
+		name(ops[t][0])
+		if kind == "only" {
+			return sp.setOps(0, ops[t][0])
+		}
+		return sp.setOps(0, ops[t][0], other(t))
+	case "create-second-in-root":
+		sp.head = 0
+		name(ops[3][0])
+		return sp.setOps(0, ops[3][0], foreign)
+	case "create-in-second-commit":
+		sp.head = 1
+		name(ops[3][0])
+		if err := sp.setOps(0, ops[3][0]); err != nil {
+			return err
+		}
+		return sp.setOps(1, foreign)
+	case "second-create-in-root":
+		return sp.setOps(0, own, foreign) // same id as the seed, every commit rewritten
+	case "second-create-later":
+		return sp.appendOps(len(sp.commits)-1, foreign) // the seed's history, its last commit extended
+	case "second-create-branch":
+		return sp.appendOps(2, foreign) // the right branch of the diamond
+	case "creates-tie":
+		// empty root pack, the two branches carry one create operation each at the same edit time:
+		// the pack id decides which one is the first operation
+		a, b := own, foreign
+		if arg == "b" {
+			a, b = foreign, own
+		}
+		if err := sp.setOps(0); err != nil {
+			return err
+		}
+		if err := sp.setOps(1, a); err != nil {
+			return err
+		}
+		if err := sp.setOps(2, b); err != nil {
+			return err
+		}
+		clock := ""
+		for _, e := range sp.commits[1].tree {
+			if strings.HasPrefix(e.Name, "edit-clock-") {
+				clock = e.Name
+			}
+		}
+		for i, e := range sp.commits[2].tree {
+			if strings.HasPrefix(e.Name, "edit-clock-") {
+				sp.commits[2].tree[i].Name = clock
+			}
+		}
+		sp.commits[2].changed = true
+		first := a
+		if sha(sp.commits[2].blob) < sha(sp.commits[1].blob) {
+			first = b
+		}
+		name(first)
+		return nil
+	}
+	return fmt.Errorf("unknown crafted history %q", variant)
 }
